@@ -177,7 +177,11 @@ impl LazyScopedVariables {
     }
 
     pub(super) fn evaluate_all(&self, exec: &mut EvaluationContext) -> Result<(), ExecutionError> {
-        for (name, cell) in &self.variables {
+        // iterate in name order, so that the error that is reported does not depend on hashing
+        let mut names = self.variables.keys().collect::<Vec<_>>();
+        names.sort();
+        for name in names {
+            let cell = &self.variables[name];
             let values = cell.replace(ScopedValues::Forcing);
             let map = self.force(name, values, exec)?;
             cell.replace(ScopedValues::Forced(map));
